@@ -263,7 +263,7 @@ package closest
 //@   before return#3: assert [c18.error.first] len(recvd(cErr)) == 1 && err == recvd(cErr)[0]
 //@   before return#5: assert [c18.nil.means.clean] len(recvd(cErr)) == 0 && len(recvd(cResults)) == nQ
 //@   ghost gWriteFailed bool = false
-//@   after call:writeClosest#1: do gWriteFailed = err != nil
+//@   after call:writeClosest#1: do gWriteFailed = ret() != nil
 //@   ensures [c18.error.returned] implies(gErrSeen, result != nil)
 //@   ensures [c19.writer.error.returned] implies(gWriteFailed, result != nil)
 
@@ -291,8 +291,8 @@ package closest
 //@   before return#3: do gErrSeen = true
 //@   before return#2: assert [c18.error.first] len(recvd(cErr)) == 1 && err == recvd(cErr)[0]
 //@   before return#3: assert [c18.error.first] len(recvd(cErr)) == 1 && err == recvd(cErr)[0]
-//@   after call:writeClosestNTable#1: do gWriteFailed = err != nil
-//@   after call:writeClosestN#1: do gWriteFailed = err != nil
+//@   after call:writeClosestNTable#1: do gWriteFailed = ret() != nil
+//@   after call:writeClosestN#1: do gWriteFailed = ret() != nil
 //@   before return#5: assert [c18.nil.means.clean] len(recvd(cErr)) == 0 && len(recvd(cResults)) == nQ
 //@   ensures [c18.error.returned] implies(gErrSeen, result != nil)
 //@   ensures [c19.writer.error.returned] implies(gWriteFailed, result != nil)
